@@ -36,14 +36,21 @@ EXPLANATION = (
     "first, for all scales."
 )
 BOUNDS = {
-    "quick": "atoms {xa, xb, kxa, %, ohm-sign, angstrom-sign, micro-m}; all terms of depth <= 1, 200 seeded of depth 2, 200 of depth 3 (root degree <= 36); "
-             "120 simplify() terms over table/percent atoms + one symbolic atom; 9 coefficients x 12 terms; 40 offset/special units; 28 spelling groups",
-    "thorough": "same atoms; all depth <= 1, 1500 seeded of depth 2, 1500 of depth 3; 600 simplify() terms; 9 coefficients x 60 terms; offset and spelling tables as in quick; "
-                "every table symbol and every SI-prefixed prefixable symbol alone and to the powers -1, 2, 1/2 (ground)",
+    "quick": "atoms {xa, xb, kxa, %, ohm-sign, angstrom-sign, micro-m}; all 196 terms of depth <= 1, 200 seeded of depth 2, 200 of depth 3 (root degree <= 36), each "
+             "printed with str and repr and re-read from text and utf-8 bytes; 316 terms also written as strings in 4 surface syntaxes and compared with the "
+             "arithmetic result; 120 simplify() terms over table/percent atoms + one symbolic atom; 9 coefficients x 12 terms; 10 groups of offset / "
+             "logarithmic / temperature-difference / angle / bare-1 units (78 units); 39 spelling groups (~200 spellings)",
+    "thorough": "same atoms; 1500 seeded terms of depth 2, 1500 of depth 3; 1396 terms in 4 surface syntaxes; 600 simplify() terms; 9 coefficients x 60 terms; special and "
+                "spelling tables as in quick; every table symbol and every SI-prefixed prefixable symbol alone and to the powers -1, 2, 1/2 over a symbolic xc (ground scales)",
 }
 OUTSIDE = ("NOT APPLICABLE and not claimed: totality (any string parses or raises UnitParseError, nothing else is evaluated) and malformed-input fuzzing. "
            "Also outside: strings are concrete (only scales/offsets are solver variables); float exponents that are not small rationals in disguise "
-           "('xa**0.6666666666666666' is read as the exact decimal, unlike Unit.__pow__); persistence layers themselves (C11); a second registry (C13); rounding (A1)")
+           "('xa**0.6666666666666666' is read as the exact decimal, unlike Unit.__pow__); the compatibility code points OHM SIGN U+2126 / ANGSTROM SIGN U+212B "
+           "(not names of the table); persistence layers themselves (C11); a second registry (C13); rounding (A1)")
+ASSUMPTIONS = ["MonoReal (harness/unitterms_common.py): a positive scale symbol is introduced as t**N; the exponent arithmetic that keeps products, "
+               "quotients and rational powers of such scales in exact monomial form, and the reduction of closeness/isclose of two monomials over the "
+               "same power product to their rational coefficients, are harness code",
+               "unit strings are concrete: the parser (str.replace, tokenize, sympy transformations, eval) runs on real Python strings"]
 CONFORM = {"quick": 40, "thorough": 120}
 
 NAMES = ["xa", "xb", "xc", "xt", "xz"]
@@ -281,6 +288,8 @@ SPELL = [
     (True, ["%", "percent"]),
     (False, ["%", "0.01*dimensionless", "dimensionless/100"]),
     (True, ["xa*%", "xa*percent", "%*xa", "percent * xa"]),
+    (True, ["%**2", "%*%", "percent*percent", "percent**2", "% * %", "%*percent"]),
+    (True, ["xa*%/(xb*%**3)", "xa/xb/%/%", "xa*%**-2/xb"]),
     (True, ["xa/%**2", "xa/percent**2", "xa*%**-2"]),
     (True, ["2.5*xa", "5*xa/2", "xa*2.5", "5/2*xa", "2.5 * xa", "2.50*xa", "25e-1*xa", "xa*5/2"]),
     (True, ["1e3*xa", "1000*xa", "1000.0*xa", "1E3*xa", "10**3*xa", "1e+3*xa"]),
